@@ -794,6 +794,7 @@ fn c02_classify(t: &[&str]) -> Option<String> {
 
 /// the Cartesian geometry of a state, computed independently from its parameters:
 /// lattice vectors and, per copy, (linear part 2x2, position)
+#[derive(Clone)]
 struct Geo {
     a: geom::P2,
     b: geom::P2,
@@ -1057,8 +1058,188 @@ fn symmetry_of_state(st: &crate::state::AnyState) -> Option<String> {
     Some("ok holds".to_string())
 }
 
+/// independent lattice sums of a Lennard-Jones state
+struct LjSums {
+    n: usize,
+    terms: f64,
+    min_r: f64,
+    cut: bool,
+    need: i64,
+    items: Vec<(f64, f64, f64, f64, Option<f64>)>,
+    geo: Geo,
+}
+
+fn lj_prepare(st: &crate::state::AnyState) -> Option<LjSums> {
+    let lj = match st {
+        crate::state::AnyState::LJ(s) => s.clone(),
+        _ => return None,
+    };
+    let geo = state_geo(st)?;
+    let items: Vec<(f64, f64, f64, f64, Option<f64>)> = lj.shape.items.iter().map(|p| (p.position.x, p.position.y, p.sigma, p.epsilon, p.cutoff)).collect();
+    let cut = items.iter().all(|p| p.4.is_some());
+    let c = items.iter().map(|p| p.4.unwrap_or(0.0)).fold(0.0, f64::max);
+    let rho = items.iter().map(|p| (p.0 * p.0 + p.1 * p.1).sqrt()).fold(0.0, f64::max);
+    let cross = geom::cross(geo.a, geo.b).abs();
+    let hmin = cross / geom::norm(geo.a).max(geom::norm(geo.b));
+    let need = if cut { ((c + 2.0 * rho) / hmin).ceil() as i64 + 1 } else { 3 };
+    Some(LjSums { n: geo.copies.len(), terms: 0.0, min_r: f64::INFINITY, cut, need, items, geo })
+}
+
+impl LjSums {
+    fn place(&self, lin: &[f64; 4], pos: geom::P2) -> Vec<(f64, f64, f64, f64, Option<f64>)> {
+        self.items.iter().map(|p| (lin[0] * p.0 + lin[1] * p.1 + pos.0, lin[2] * p.0 + lin[3] * p.1 + pos.1, p.2, p.3, p.4)).collect()
+    }
+    fn emol(&mut self, pa: &[(f64, f64, f64, f64, Option<f64>)], pb: &[(f64, f64, f64, f64, Option<f64>)]) -> f64 {
+        let mut e = 0.0;
+        for x in pa {
+            for y in pb {
+                let r = ((x.0 - y.0).powi(2) + (x.1 - y.1).powi(2)).sqrt();
+                if r / x.2.abs().max(1e-300) < self.min_r {
+                    self.min_r = r / x.2.abs().max(1e-300);
+                }
+                if !(r > 0.0) {
+                    continue;
+                }
+                e += lj_closed_form(x.2, x.3, x.4, r);
+                self.terms += lj_terms(x.2, x.3, x.4, r);
+            }
+        }
+        e
+    }
+    /// (code convention, each-pair-once convention) per molecule over a box of kk shells
+    fn sums(&mut self, kk: i64) -> (f64, f64) {
+        let n = self.n;
+        let home: Vec<Vec<(f64, f64, f64, f64, Option<f64>)>> = self.geo.copies.iter().map(|c| self.place(&c.0, c.1)).collect();
+        let (a, b) = (self.geo.a, self.geo.b);
+        let mut code = 0.0;
+        let mut sym = 0.0;
+        for i in 0..n {
+            for j in 0..n {
+                if j > i {
+                    code += self.emol(&home[i], &home[j]);
+                }
+                if j != i {
+                    sym += 0.5 * self.emol(&home[i], &home[j]);
+                }
+                for nn in -kk..=kk {
+                    for mm in -kk..=kk {
+                        if nn == 0 && mm == 0 {
+                            continue;
+                        }
+                        let sh = (nn as f64 * a.0 + mm as f64 * b.0, nn as f64 * a.1 + mm as f64 * b.1);
+                        let cj = self.geo.copies[j];
+                        let img = self.place(&cj.0, (cj.1 .0 + sh.0, cj.1 .1 + sh.1));
+                        let e = self.emol(&home[i], &img);
+                        code += 0.5 * e;
+                        sym += 0.5 * e;
+                    }
+                }
+            }
+        }
+        (-code / n as f64, -sym / n as f64)
+    }
+}
+
+/// C03: independent lattice sum for a Lennard-Jones state: <state>
+/// Reply prefixes (the caller maps them to predicates): `ok holds`, `ok FAILS sum …`,
+/// `ok FAILS unlike …`, `ok FAILS shells …`.
+fn c03_latticesum(t: &[&str]) -> Option<String> {
+    let mut k = crate::exec::Toks::new(t);
+    let st = match crate::state::parse_state(&mut k)? {
+        Ok(s) => s,
+        Err(_) => return Some("ok holds invalid-request".to_string()),
+    };
+    let score = match crate::state::state_score(&st) {
+        Some(x) if x.is_finite() => x,
+        _ => return Some("ok holds no-finite-score".to_string()),
+    };
+    let mut l = match lj_prepare(&st) {
+        Some(l) => l,
+        None => return Some("ok holds not-lj".to_string()),
+    };
+    let (want, wsym) = l.sums(3);
+    if l.min_r < 1e-2 {
+        // (nearly) coincident particles: positions cancel catastrophically, nothing can be compared
+        return Some("ok holds coincident-particles".to_string());
+    }
+    let tol = (1e-9 * l.terms / l.n as f64).max(1e-9 * want.abs()).max(1e-300);
+    if (score - want).abs() > tol {
+        return Some(format!("ok FAILS sum: score {:e} but the lattice sum over 3 shells (in-cell pairs once, image pairs half) is {:e}", score, want));
+    }
+    if (wsym - want).abs() > tol {
+        return Some(format!("ok FAILS unlike: counting each pair of images once gives {:e} but the score is {:e} (pair energy not symmetric)", wsym, score));
+    }
+    if l.cut && l.need > 3 && l.need <= 40 {
+        let need = l.need;
+        let (wk, _) = l.sums(need);
+        if (wk - want).abs() > tol {
+            return Some(format!("ok FAILS shells: images beyond shell 3 lie within the cutoff: score {:e}, full lattice sum {:e}", score, wk));
+        }
+    }
+    Some("ok holds".to_string())
+}
+
+/// C03 re-description: the same crystal with the origin shifted by a symmetry-equivalent half
+/// lattice vector must score the same (for an uncut potential: up to the truncation error of the
+/// 3-shell sum, measured by the oracle itself): <sx> <sy> <state>   (shift in units of 1/2)
+fn c03_redescribe(t: &[&str]) -> Option<String> {
+    let sx: f64 = t.get(0)?.parse::<i64>().ok()? as f64 * 0.5;
+    let sy: f64 = t.get(1)?.parse::<i64>().ok()? as f64 * 0.5;
+    let rest = &t[2..];
+    let n = rest.len();
+    if n < 4 {
+        return None;
+    }
+    let mut k = crate::exec::Toks::new(rest);
+    let st = match crate::state::parse_state(&mut k)? {
+        Ok(s) => s,
+        Err(_) => return Some("ok holds invalid-request".to_string()),
+    };
+    let x = unfhex(rest[n - 3])?;
+    let y = unfhex(rest[n - 2])?;
+    let mut shifted: Vec<String> = rest.iter().map(|s| s.to_string()).collect();
+    shifted[n - 3] = fhex(x + sx);
+    shifted[n - 2] = fhex(y + sy);
+    let sr: Vec<&str> = shifted.iter().map(|s| s.as_str()).collect();
+    let mut k2 = crate::exec::Toks::new(&sr);
+    let st2 = match crate::state::parse_state(&mut k2)? {
+        Ok(s) => s,
+        Err(_) => return Some("ok holds invalid-request".to_string()),
+    };
+    let (s1, s2) = match (crate::state::state_score(&st), crate::state::state_score(&st2)) {
+        (Some(a), Some(b)) if a.is_finite() && b.is_finite() => (a, b),
+        _ => return Some("ok holds no-finite-score".to_string()),
+    };
+    let (mut l1, mut l2) = (lj_prepare(&st)?, lj_prepare(&st2)?);
+    let (a3, _) = l1.sums(3);
+    let (b3, _) = l2.sums(3);
+    if l1.min_r < 1e-2 || l2.min_r < 1e-2 {
+        return Some("ok holds coincident-particles".to_string());
+    }
+    let scale = (l1.terms / l1.n as f64).max(s1.abs()).max(s2.abs());
+    let mut tol = 1e-9 * scale;
+    if !l1.cut {
+        // truncation error of the 3-shell sum, measured on both descriptions
+        let (a8, _) = l1.sums(8);
+        let (b8, _) = l2.sums(8);
+        tol += 2.0 * ((a8 - a3).abs() + (b8 - b3).abs());
+    } else if l1.need > 3 || l2.need > 3 {
+        return Some(if (s1 - s2).abs() > tol {
+            format!("ok FAILS shells: images beyond shell 3 lie within the cutoff: the two descriptions score {:e} and {:e}", s1, s2)
+        } else {
+            "ok holds".to_string()
+        });
+    }
+    if (s1 - s2).abs() > tol {
+        return Some(format!("ok FAILS redescription: score {:e} becomes {:e} when the origin is shifted by ({}, {})", s1, s2, sx, sy));
+    }
+    Some("ok holds".to_string())
+}
+
 pub fn oracle(t: &[&str]) -> Option<String> {
     match *t.get(0)? {
+        "c03_latticesum" => c03_latticesum(&t[1..]),
+        "c03_redescribe" => c03_redescribe(&t[1..]),
         "c02_area" => c02_area(&t[1..]),
         "c02_classify" => c02_classify(&t[1..]),
         "c02_score" => c02_score(&t[1..]),
